@@ -6,6 +6,19 @@ pub mod knobs {
 
     std::thread_local! {
         static LENIENT_QUOTIENT: Cell<bool> = const { Cell::new(false) };
+        static QUOTIENT_PERTURB: Cell<Option<(usize, u64)>> = const { Cell::new(None) };
+    }
+
+    /// When set to `(index, delta)`, the prover adds `delta` to coefficient 0 of the quotient
+    /// polynomial of challenge `index` before committing to it (an adversarial strategy: the proof
+    /// stays transcript-consistent, only the identity for that challenge is false).
+    pub fn set_quotient_perturb(v: Option<(usize, u64)>) {
+        QUOTIENT_PERTURB.with(|c| c.set(v));
+    }
+
+    /// Current value of the quotient perturbation on this thread.
+    pub fn quotient_perturb() -> Option<(usize, u64)> {
+        QUOTIENT_PERTURB.with(|c| c.get())
     }
 
     /// When set, the prover truncates a too-long quotient polynomial instead of failing.
